@@ -52,13 +52,27 @@ Ids  == {Id(c) : c \in Contents(IdAlpha, 1)}
 IdBT(c) == [k |-> "idbt", c |-> c]
 QuoteSeqs == {<<a>> : a \in Lits \cup Ids} \cup {<<a, Ch(44), b>> : a \in Ids, b \in Lits \cup Ids} \cup {<<a, Ch(61), b>> : a \in Lits, b \in Ids}
              \cup {<<IdBT(c), Ch(44), b>> : c \in {<<107, BS>>, <<BS>>, <<107, BS, BT>>, <<107>>}, b \in {Id(<<110>>), Id(<<DQ>>), Lit(<<DQ>>), Lit(<<97>>)}}
+\* double-quoted identifiers holding backslashes (not in front of a double quote, not at the end - there the rewriter, as
+\* coded, reads an escape): a backslash means nothing in an identifier, two of them stay two
+IdsBS == {Id(<<BS, 97>>), Id(<<BS, BS, 97>>), Id(<<120, BS, BS, 121>>), Id(<<BS, BT, 97>>), Id(<<BS, BS, BS, 97>>), Id(<<BS, SQ, BS, BS, 110>>)}
+QuoteSeqsBS == {<<a>> : a \in IdsBS} \cup {<<a, Ch(44), b>> : a \in IdsBS, b \in {Id(<<110>>), Lit(<<DQ>>), Lit(<<BS>>), Id(<<BS, BS, 97>>)}}
 \* bracket structures (balanced or not) around a few literals / identifiers for the array option
 \* (the last identifier ends in a backslash: inside back quotes a backslash is a character like any other)
 BrTok == {LB, RB, Ch(49), Lit(<<91>>), Lit(<<93, SQ>>), Lit(<<BS>>), Id(<<91, 97>>), Id(<<BT, 93>>), Id(<<97, BS>>)}
 BrSeqs == UNION {[1..n -> BrTok] : n \in 1..MaxBrTokens}
+\* many brackets in one statement: an array of k one-element arrays, k-deep nesting, k flat arrays followed by a nested one,
+\* and the unbalanced variants that lose their last closing bracket
+RECURSIVE Rep(_, _)
+Rep(ts, k) == IF k = 0 THEN <<>> ELSE ts \o Rep(ts, k - 1)
+One == <<LB, Ch(49), RB>>
+BrLong == UNION {{<<LB>> \o Rep(One, k) \o <<RB>>,
+                  Rep(<<LB>>, k) \o <<Id(<<91, 97>>)>> \o Rep(<<RB>>, k),
+                  Rep(One, k) \o <<LB, LB, Lit(<<93, SQ>>), RB, RB>>,
+                  <<LB>> \o Rep(One, k),
+                  Rep(<<LB>>, k) \o <<Ch(49)>> \o Rep(<<RB>>, k - 1)} : k \in {15, 16, 17, 33}}
 
-Init == /\ \/ \E ts \in QuoteSeqs : cs = [fam |-> "quotes", ts |-> ts, text |-> Render(ts, TRUE, FALSE)]
-           \/ \E ts \in BrSeqs : cs = [fam |-> "arrays", ts |-> ts, text |-> Render(ts, FALSE, TRUE)]
+Init == /\ \/ \E ts \in QuoteSeqs \cup QuoteSeqsBS : cs = [fam |-> "quotes", ts |-> ts, text |-> Render(ts, TRUE, FALSE)]
+           \/ \E ts \in BrSeqs \cup BrLong : cs = [fam |-> "arrays", ts |-> ts, text |-> Render(ts, FALSE, TRUE)]
         /\ out = <<>> /\ pc = "start"
 Rewrite == pc = "start" /\ out' = (IF cs.fam = "quotes" THEN DQ2BT(cs.text) ELSE FixArr(cs.text)) /\ pc' = "done" /\ UNCHANGED cs
 Next == Rewrite
@@ -76,9 +90,10 @@ ReferenceReads == (Done /\ cs.fam = "quotes") => MyTokens(Render(cs.ts, FALSE, F
 \* requoted, contents of literals and identifiers untouched
 QuotesPreserved == (Done /\ cs.fam = "quotes") => out # RwErr /\ MyTokens(out) = Expected(cs.ts)
 \* IdiomaticArrays: balanced brackets become ARRAY( ... ), brackets inside literals and identifiers stay; unbalanced is an error
-Depth(ts) == LET F[i \in 0..Len(ts)] == IF i = 0 THEN 0 ELSE IF F[i - 1] < 0 THEN -1
-                                        ELSE IF ts[i].k = "lb" THEN F[i - 1] + 1 ELSE IF ts[i].k = "rb" THEN F[i - 1] - 1 ELSE F[i - 1]
-             IN  F[Len(ts)]
+RECURSIVE DepthFrom(_, _, _)
+DepthFrom(ts, i, d) == IF d < 0 THEN -1 ELSE IF i > Len(ts) THEN d
+                       ELSE DepthFrom(ts, i + 1, IF ts[i].k = "lb" THEN d + 1 ELSE IF ts[i].k = "rb" THEN d - 1 ELSE d)
+Depth(ts) == DepthFrom(ts, 1, 0)
 Balanced(ts) == Depth(ts) = 0
 ArraysRewritten == (Done /\ cs.fam = "arrays") =>
                       IF Balanced(cs.ts) THEN out = Render(cs.ts, FALSE, FALSE) ELSE out = RwErr
